@@ -24,10 +24,13 @@
   assembled from source (`source_tOk`, `source_bExtra`) and together give `WF` (`binWF_of`).  Hence the property as stated: any
   object file produced by assembling source texts (with or without debug symbols) and linking the results in any order
   and grouping is read back unchanged from the binary format (side condition: the sources with debug symbols, plus one byte
-  each, fit 2^64 bytes).  By correspondence only: links with an operand that has no symbol table, reader-produced files.
+  each, fit 2^64 bytes).  `roundtrip_assembled_or_linked` (Lemmas/LinkAny) removes the restriction to files with symbol tables: `link` keeps `Inv2`
+  (no symbol table and a well-formed block map, or `TOk` and `BExtra`) in all four cases.  By correspondence only: files written by
+  hand or produced by the readers.
 -/
 import Lc3V.Lemmas.C17Core
 import Lc3V.Lemmas.BinLink
+import Lc3V.Lemmas.LinkAny
 namespace Lc3V.C17
 open Lc3V Bin
 
@@ -36,6 +39,7 @@ def obligations : List Lean.Name :=
    ``Lc3V.Bin.chunks2_words, ``Lc3V.Bin.read_block, ``Lc3V.Bin.read_label, ``Lc3V.Bin.read_lineBlock, ``Lc3V.Bin.read_src,
    ``Lc3V.Bin.read_rel, ``Lc3V.Bin.readChunks_items, ``Lc3V.Bin.fromBlocks_self, ``Lc3V.insAll_nil,
    ``Lc3V.binWF_of, ``Lc3V.link_bExtra, ``Lc3V.source_bExtra, ``Lc3V.source_tOk, ``Lc3V.link_tOk, ``Lc3V.Txt.DOk.link,
-   ``Lc3V.C20.binary_roundtrip_assembled_or_linked]
+   ``Lc3V.C20.binary_roundtrip_assembled_or_linked,
+   ``Lc3V.C20.link_inv2, ``Lc3V.C20.source_inv2, ``Lc3V.C20.roundtrip_assembled_or_linked]
 
 end Lc3V.C17
